@@ -360,8 +360,17 @@ Fixpoint c06_order (seen_failure : bool) (outs : list output) : bool :=
    handler must NOT be fed with them (no running failure strategy on a process that was merely starting). The set of
    instances hosting such a process is recomputed from the EVENTS (an ALL_INFO snapshot with such a process, accepted
    while the instance is CHECKING) *)
-Fixpoint c06_loss_walk (me : Z) (hosting : list Z) (prev_fsm prev_master : Z) (prev_ist : list (Z * Z * Z * Z * Z))
-                       (evs : list event) (obss : list obs) : bool :=
+(* the evaluation that acknowledged the loss also left the working state (a consistence check decided ELECTION, ...):
+   the state after the event differs, or a publication of another state was emitted on the way (the set_state loop may
+   be back in the same state at the end of the event) *)
+Definition left_state (prev_fsm : Z) (o : nobs) : bool :=
+  negb (Z.eqb (obs_fsm o) prev_fsm)
+  || existsb (fun x => match x with Publish f _ _ _ => negb (Z.eqb f prev_fsm) | _ => false end) (obs_outs o).
+(* [exempt_left] = true: a loss acknowledged by an evaluation that leaves the working state is not demanded (the state
+   classes return the decision of the consistence check BEFORE _common_next / _master_next run: known finding
+   F9b-lost-at-reelection); false: it is demanded too (used to recognise that class) *)
+Fixpoint c06_loss_walk (exempt_left : bool) (me : Z) (hosting : list Z) (prev_fsm prev_master : Z)
+                       (prev_ist : list (Z * Z * Z * Z * Z)) (evs : list event) (obss : list obs) : bool :=
   match evs, obss with
   | e :: re, NOk o :: ro =>
       let hosting1 :=
@@ -384,11 +393,12 @@ Fixpoint c06_loss_walk (me : Z) (hosting : list Z) (prev_fsm prev_master : Z) (p
        | _ => negb by_timer
               || negb (Z.eqb prev_master me && Z.eqb (obs_master o) me)
               || negb (Z.eqb prev_fsm 3 || Z.eqb prev_fsm 4 || Z.eqb prev_fsm 5)
-              || negb (Z.eqb (obs_fsm o) prev_fsm)
+              || (exempt_left && left_state prev_fsm o)
               || Bool.eqb (existsb (fun x => match x with FailureJob => true | _ => false end) (obs_outs o))
                           (negb (first_starting e))
        end)
-      && c06_loss_walk me (filter (fun j => negb (zmem j lost)) hosting1) (obs_fsm o) (obs_master o) (obs_ist o) re ro
+      && c06_loss_walk exempt_left me (filter (fun j => negb (zmem j lost)) hosting1) (obs_fsm o) (obs_master o)
+                       (obs_ist o) re ro
   | _, _ => true
   end.
 
@@ -396,12 +406,19 @@ Fixpoint c06_loss_walk (me : Z) (hosting : list Z) (prev_fsm prev_master : Z) (p
    the consistence check decide first (re-synchronisation / shutdown) and the failure handler is deliberately not fed;
    in DISTRIBUTION that decision (SYNCHRONIZATION) is refused by the transition table — catalogued in
    C08_decisions_catalogue — and the lost processes are then not handled either (observation F1 in DESIGN §6) *)
+Definition c06_loss_ok (exempt_left : bool) (c : ncase) : bool :=
+  match c with (n, evs, obss) =>
+    match o_fstrategy (n_opts n) with
+    | FS_CONTINUE => c06_loss_walk exempt_left (n_me n) (n_hosting n) (scode (fsm_state n)) (master n) (init_ist n)
+                                   evs obss
+    | _ => true
+    end end.
 Definition c06_case_ok (c : ncase) : bool :=
-  (match c with (n, evs, obss) =>
-     match o_fstrategy (n_opts n) with
-     | FS_CONTINUE => c06_loss_walk (n_me n) (n_hosting n) (scode (fsm_state n)) (master n) (init_ist n) evs obss
-     | _ => true
-     end end) &&
+  c06_loss_ok true c &&
   match c with (_, _, obss) =>
     forallb (fun o => match o with NOk ob => c06_order false (obs_outs ob) | NCrash _ => true end) obss end.
 Definition spec_violations_c06n (cs : list ncase) : list nat := find_idx (fun c => negb (c06_case_ok c)) cs.
+(* class of the known finding F9b-lost-at-reelection: the only unhandled losses are acknowledged by an evaluation that
+   leaves the working state *)
+Definition known_c06_loss_at_reelection (cs : list ncase) : list nat :=
+  find_idx (fun c => c06_loss_ok true c && negb (c06_loss_ok false c)) cs.
